@@ -207,7 +207,16 @@ def inline_new_functions(prog, known=None, max_blocks=400):
                 propagated = (dest["l"] == 0 and not dest.get("p")) or bool(analysis.consumed(F, b)[0])
             except Exception:
                 propagated = False
-            splice(F, b, G, propagated)
+            saved = (copy.deepcopy(F.blocks[b]), list(F.raw["locals"]), dict(F.raw.get("names") or {}), len(F.blocks), F.inl_err_locals, F.inl_from)
+            try:
+                splice(F, b, G, propagated)
+            except Exception:
+                # leave the call as it was (the rules then see an ordinary call to an unknown function)
+                F.blocks[b], F.raw["locals"], F.raw["names"] = saved[0], saved[1], saved[2]
+                del F.blocks[saved[3]:]
+                F.inl_err_locals, F.inl_from = saved[4], saved[5]
+                _reset(F)
+                continue
             done[ck] = done.get(ck, 0) + 1
         state[F.key] = "done"
 
